@@ -155,6 +155,9 @@ class Kernel:
                 return (MIR_BIN[i[1][:-len("WithOverflow")]], T(i[2]), T(i[3]))
         if op == "unop" and e[1] == "Neg":
             return ("neg", T(e[2]))
+        if op == "agg" and e[1] == "tuple" and e[3]:
+            # a tuple of values (the state of a fold carried as a tuple): component-wise terms
+            return ("tuple",) + tuple(T(x) for x in e[3])
         if op == "cast":
             return T(e[2])
         raise Unrecognised("expression `%s`" % fmt(e)[:100])
@@ -560,7 +563,7 @@ def zip_structure(prog, body, it, counter=None):
     for _ in range(12):
         if isinstance(e, tuple) and e[0] == "call" and e[1] in ("into_iter", "iter", "by_ref", "cloned", "copied", "view", "into_producer") and e[3]:
             inner = ds(e[3][0])
-            if isinstance(inner, tuple) and inner[0] == "call" and inner[1] in ("zip", "into_iter", "iter", "by_ref", "cloned", "copied"):
+            if isinstance(inner, tuple) and inner[0] == "call" and inner[1] in ("zip", "into_iter", "iter", "by_ref", "cloned", "copied", "enumerate"):
                 e = inner
                 continue
             break
@@ -569,6 +572,10 @@ def zip_structure(prog, body, it, counter=None):
         s0, p0 = zip_structure(prog, body, e[3][0], counter)
         s1, p1 = zip_structure(prog, body, e[3][1], counter)
         return (s0, s1), p0 + p1
+    if isinstance(e, tuple) and e[0] == "call" and e[1] == "enumerate" and len(e[3]) == 1:
+        # (position, item): the position counts the items of the inner traversal from 0 in its own order
+        s0, p0 = zip_structure(prog, body, e[3][0], counter)
+        return ("#pos", s0), p0
     name = "e%d" % counter[0]
     counter[0] += 1
     from .rules_layout import producer_chain
